@@ -582,6 +582,8 @@ def gen_spec(rng, fmt=None, maxn=5, maxt=4, small=False):
     if sdate // 1000 == 2069 and sdate % 1000 + (nt * dhour + shour) // 24 \
             > 364:
         dhour = 1      # stay inside the 1970-2069 two-digit-year window
+        if sdate % 1000 + (nt + shour) // 24 > 364:
+            sdate = 2069001
     spec = {'fmt': fmt, 'nx': nx, 'ny': ny, 'nz': nz, 'nt': nt,
             'names': names, 'sdate': sdate, 'shour': shour, 'dhour': dhour,
             'seed': int(rng.integers(1 << 30)),
